@@ -32,6 +32,12 @@ namespace c55 {
     static constexpr unsigned short N =
         tfel::material::ModellingHypothesisToSpaceDimension<H>::value;
     static constexpr int S = tfel::math::StensorDimeToSize<N>::value;
+    //! plane stress hypotheses: the axial strain is the internal state variable 0 (as in generated behaviours:
+    //! `etozz` / `etozz` of AxisymmetricalGeneralisedPlaneStress), eliminated from sigma_zz = 0
+    static constexpr bool plane_stress =
+        (H == ModellingHypothesis::PLANESTRESS) || (H == ModellingHypothesis::AXISYMMETRICALGENERALISEDPLANESTRESS);
+    //! index of the axial component in the stensor storage (2D: zz = 2; 1D axisymmetric (rr, zz, tt): zz = 1)
+    static constexpr int axial = (H == ModellingHypothesis::PLANESTRESS) ? 2 : 1;
     using real = Real;
     using stress = Real;
     using speed = Real;
@@ -56,6 +62,9 @@ namespace c55 {
       }
       lambda = d.s1.material_properties[0];
       mu = d.s1.material_properties[1];
+      if constexpr (plane_stress) {
+        etozz = d.s0.internal_state_variables[0];
+      }
     }
     void setOutOfBoundsPolicy(const tfel::material::OutOfBoundsPolicy) {}
     bool initialize() { return true; }
@@ -65,15 +74,34 @@ namespace c55 {
     real getMinimalTimeStepScalingFactor() const { return real(1) / 10; }
     IntegrationResult integrate(const SMFlag, const SMType smt) {
       using namespace tfel::math;
-      const stensor<N, Real> e = eto + deto;
+      stensor<N, Real> e = eto + deto;
+      if constexpr (plane_stress) {
+        // the axial component of the strain handed by the interface is meaningless in plane stress: the axial
+        // strain is the unknown eliminated from sigma_zz = 0
+        e[axial] = Real(0);
+        etozz = -(lambda / (lambda + 2 * mu)) * trace(e);
+        e[axial] = etozz;
+      }
       sig = lambda * trace(e) * stensor<N, Real>::Id() + 2 * mu * e;
       if (smt != NOSTIFFNESSREQUESTED) {
-        Dt = lambda * st2tost2<N, Real>::IxI() + 2 * mu * st2tost2<N, Real>::Id();
+        if constexpr (plane_stress) {
+          const Real ls = 2 * mu * lambda / (lambda + 2 * mu);
+          Dt = ls * st2tost2<N, Real>::IxI() + 2 * mu * st2tost2<N, Real>::Id();
+          for (int i = 0; i != S; ++i) {
+            Dt(axial, i) = Real(0);
+            Dt(i, axial) = Real(0);
+          }
+        } else {
+          Dt = lambda * st2tost2<N, Real>::IxI() + 2 * mu * st2tost2<N, Real>::Id();
+        }
       }
       return SUCCESS;
     }
     void exportStateData(mfront_gb_State& s) const {
       for (int i = 0; i != S; ++i) s.thermodynamic_forces[i] = sig[i];
+      if constexpr (plane_stress) {
+        s.internal_state_variables[0] = etozz;
+      }
     }
     const tfel::math::st2tost2<N, Real>& getTangentOperator() const { return Dt; }
     bool computePredictionOperator(const SMFlag, const SMType) { return false; }
@@ -81,6 +109,7 @@ namespace c55 {
     tfel::math::stensor<N, Real> eto, deto, sig;
     tfel::math::st2tost2<N, Real> Dt;
     Real lambda, mu;
+    Real etozz = Real(0);
   };
 }  // namespace c55
 
@@ -100,7 +129,8 @@ namespace mfront::gb {
   template <ModellingHypothesis::Hypothesis H, typename Real>
   struct GenericBehaviourTraits<c55::Elasticity<H, Real>> {
     static constexpr auto hypothesis = H;
-    static constexpr auto has_axial_strain_offset = false;
+    static constexpr bool has_axial_strain_offset = c55::Elasticity<H, Real>::plane_stress;
+    static constexpr std::size_t axial_strain_offset = 0;
   };
 }  // namespace mfront::gb
 
